@@ -136,6 +136,8 @@ func (p *parser) value() any {
 			l = []any{}
 		}
 		return l
+	case t == "tnil":
+		return ogorek.Tuple(nil) // a nil Tuple: the same Python object as Tuple{}
 	case t == "t(":
 		l := p.until(")")
 		if l == nil {
